@@ -358,7 +358,11 @@ class DimDomain:
                 else:
                     cur = B()
             elif isinstance(op, (ast.In, ast.NotIn)):
-                cur = B()
+                # `field in ("J", "M")`: a literal against a tuple / list of literals is decided
+                if isinstance(a, Const) and isinstance(b, Seq) and b.kind == "py" and all(isinstance(x, Const) for x in b.items):
+                    cur = Const((a.value in [x.value for x in b.items]) == isinstance(op, ast.In))
+                else:
+                    cur = B()
             else:
                 da = self.collapse(a, node) if isinstance(a, Seq) else as_d(a)
                 db = self.collapse(b, node) if isinstance(b, Seq) else as_d(b)
